@@ -93,6 +93,7 @@ type Obligation struct {
 	clause  *Clause
 	expect  string // "unsat" (default, goal must hold) or "sat" (reachability / vacuity)
 	descr   string
+	narrow  string // optional reduced script tried first (very large queries)
 	params  []*Term // values to report in a model
 	pnames  []string
 	// results
